@@ -1,2 +1,3 @@
+CONSTANT WithRace3 = TRUE
 INIT Init
 NEXT Next
